@@ -79,46 +79,46 @@ func tail(s string, n int) string {
 
 // standard-library leaves known not to allocate (or only on paths outside the claim)
 var a16ExternalAllow = map[string]string{
-	"(*sync.Pool).Get":             "pool (warm)",
-	"(*sync.Pool).Put":             "pool",
-	"strconv.AppendInt":            "appends",
-	"strconv.AppendUint":           "appends",
-	"strconv.AppendFloat":          "appends",
-	"strconv.AppendBool":           "appends",
-	"strconv.AppendQuote":          "appends",
-	"(time.Time).AppendFormat":     "appends",
-	"(time.Time).Unix":             "pure",
-	"(time.Time).UnixNano":         "pure",
-	"(time.Time).UnixMilli":        "pure",
-	"(time.Time).UnixMicro":        "pure",
-	"(time.Time).Nanosecond":       "pure",
-	"(time.Time).UTC":              "pure",
-	"(time.Time).After":            "pure",
-	"(time.Time).Before":           "pure",
-	"(time.Time).Sub":              "pure",
-	"(time.Time).IsZero":           "pure",
-	"(time.Time).Equal":            "pure",
-	"time.Now":                     "pure",
-	"(time.Duration).Nanoseconds":  "pure",
-	"math.IsNaN":                   "pure",
-	"math.IsInf":                   "pure",
-	"math.Float32bits":             "pure",
-	"math.Float64bits":             "pure",
-	"math.Abs":                     "pure",
-	"math.Modf":                    "pure",
-	"math.Trunc":                   "pure",
-	"math.Floor":                   "pure",
-	"unicode/utf8.DecodeRune":      "pure",
-	"unicode/utf8.DecodeRuneInString": "pure",
-	"unicode/utf8.RuneLen":         "pure",
-	"sync/atomic.LoadInt32":        "pure",
-	"sync/atomic.LoadUint32":       "pure",
-	"sync/atomic.AddUint32":        "pure",
+	"(*sync.Pool).Get":                       "pool (warm)",
+	"(*sync.Pool).Put":                       "pool",
+	"strconv.AppendInt":                      "appends",
+	"strconv.AppendUint":                     "appends",
+	"strconv.AppendFloat":                    "appends",
+	"strconv.AppendBool":                     "appends",
+	"strconv.AppendQuote":                    "appends",
+	"(time.Time).AppendFormat":               "appends",
+	"(time.Time).Unix":                       "pure",
+	"(time.Time).UnixNano":                   "pure",
+	"(time.Time).UnixMilli":                  "pure",
+	"(time.Time).UnixMicro":                  "pure",
+	"(time.Time).Nanosecond":                 "pure",
+	"(time.Time).UTC":                        "pure",
+	"(time.Time).After":                      "pure",
+	"(time.Time).Before":                     "pure",
+	"(time.Time).Sub":                        "pure",
+	"(time.Time).IsZero":                     "pure",
+	"(time.Time).Equal":                      "pure",
+	"time.Now":                               "pure",
+	"(time.Duration).Nanoseconds":            "pure",
+	"math.IsNaN":                             "pure",
+	"math.IsInf":                             "pure",
+	"math.Float32bits":                       "pure",
+	"math.Float64bits":                       "pure",
+	"math.Abs":                               "pure",
+	"math.Modf":                              "pure",
+	"math.Trunc":                             "pure",
+	"math.Floor":                             "pure",
+	"unicode/utf8.DecodeRune":                "pure",
+	"unicode/utf8.DecodeRuneInString":        "pure",
+	"unicode/utf8.RuneLen":                   "pure",
+	"sync/atomic.LoadInt32":                  "pure",
+	"sync/atomic.LoadUint32":                 "pure",
+	"sync/atomic.AddUint32":                  "pure",
 	"(*encoding/base64.Encoding).Encode":     "writes into the destination",
 	"(*encoding/base64.Encoding).EncodedLen": "pure",
-	"reflect.TypeOf":               "no allocation (reads the type word)",
-	"(*reflect.rtype).String":      "returns the type's name string",
-	"context.Background":           "pure",
+	"reflect.TypeOf":                         "no allocation (reads the type word)",
+	"(*reflect.rtype).String":                "returns the type's name string",
+	"context.Background":                     "pure",
 }
 
 type a16 struct {
